@@ -63,17 +63,17 @@ func zzCompileAndRunMSL(src string, in []uint32, wid [3]uint32, garbage []uint32
 
 func zzRunTemplateMSL(t zzTemplate) {
 	src := zzTemplateSource(t)
-	zz.Cell(t.name)
+	zz.Cell(t.Name)
 	in := zzInputs()
 	wid, garbage := zzDispatch()
 	want := append([]uint32(nil), in...)
-	t.ref(want)
+	t.Ref(want)
 	out, ok := zzCompileAndRunMSL(src, in, wid, garbage)
 	if ok {
 		zz.Assert(len(out) == zzBufWords, "buffer size changed")
 		for i := range out {
 			if i < len(want) {
-				zz.Assert(out[i] == want[i], "template "+t.name+": final buffer of the MSL text differs from the WGSL meaning")
+				zz.Assert(out[i] == want[i], "template "+t.Name+": final buffer of the MSL text differs from the WGSL meaning")
 			}
 		}
 	}
